@@ -32,7 +32,10 @@ RULE_ADDED = (
               'dialogues through adm_ledger main() '
               ' '
               "Round 8: a quarter of the device dialogues end with the transport's close() rais"
-              'ing (judged in one direction: never success when the device never authorized). ')
+              'ing (judged in one direction: never success when the device never authorized). '
+              ' '
+              'Round 9: tool command lines spelled with long options and -v / --verbose now and'
+              ' then. ')
 RULE = RULE + " " + RULE_ADDED.strip()
 ASSUMPTIONS = [
     "own Keccak-256 (pv/oracle/hashes.py) and OpenSSL verification are the oracles",
